@@ -1410,6 +1410,11 @@ def transform(fn, proceed, to_instrument=True, set_conformer=True):
     else:
         actual_fn = defined[fname]
 
+    # The new function stands for fn: same place in the module (a method, a
+    # nested function), hence same reference string
+    actual_fn.__qualname__ = fn.__qualname__
+    actual_fn.__module__ = fn.__module__
+
     glb[fnsym] = actual_fn
 
     all_vars = transformer.used | transformer.assigned
